@@ -241,6 +241,14 @@ func queryRequestsByReqCtx(ctx sdk.Context, req abci.RequestQuery, k Keeper, leg
 		return nil, sdkerrors.Wrap(sdkerrors.ErrJSONUnmarshal, err.Error())
 	}
 
+	if len(params.RequestContextID) != types.ContextIDLen {
+		return nil, sdkerrors.Wrapf(
+			types.ErrInvalidRequestContextID,
+			"invalid length, expected: %d, got: %d",
+			types.ContextIDLen, len(params.RequestContextID),
+		)
+	}
+
 	iterator := k.RequestsIteratorByReqCtx(ctx, params.RequestContextID, params.BatchCounter)
 	defer iterator.Close()
 
@@ -265,6 +273,14 @@ func queryResponses(ctx sdk.Context, req abci.RequestQuery, k Keeper, legacyQuer
 	var params types.QueryResponsesParams
 	if err := legacyQuerierCdc.UnmarshalJSON(req.Data, &params); err != nil {
 		return nil, sdkerrors.Wrap(sdkerrors.ErrJSONUnmarshal, err.Error())
+	}
+
+	if len(params.RequestContextID) != types.ContextIDLen {
+		return nil, sdkerrors.Wrapf(
+			types.ErrInvalidRequestContextID,
+			"invalid length, expected: %d, got: %d",
+			types.ContextIDLen, len(params.RequestContextID),
+		)
 	}
 
 	iterator := k.ResponsesIteratorByReqCtx(ctx, params.RequestContextID, params.BatchCounter)
